@@ -90,10 +90,11 @@ func randomDecoration0(r *gen.R) (decoration.Decoration, string) {
 		names := decoration.RegisteredDecorationNames()
 		base := names[r.Intn(len(names))]
 		d = decoration.Named(base)
-		if nd, ok := mkDeco(base, d); !ok || nd.boxless {
+		if _, ok := mkDeco(base, d); !ok {
 			d = decoration.ASCIIBoxSimple()
 			base = "ASCIIBoxSimple()"
 		}
+		// (the base may be the boxless decoration: pieces are then switched ON, and what Populate infers from them)
 		desc = append(desc, "derived from "+base)
 		for _, name := range decoFieldNames {
 			switch r.Intn(4) {
@@ -129,11 +130,39 @@ type namedDeco struct {
 	d       decoration.Decoration
 	glyphs  []string
 	boxless bool
+	// hybrid: a value derived from the boxless decoration in which pieces have been switched on.  The library as
+	// given draws its dividers and no rules; a complete set of rules would satisfy the statement as well, so both
+	// structures are accepted (see parseText).
+	hybrid bool
+}
+
+// boxlessLineage says whether a decoration value descends from the boxless one: with every exported field blanked
+// it still differs from the zero decoration (the package keeps that fact where the program cannot see it).
+func boxlessLineage(d decoration.Decoration) bool {
+	v := reflect.ValueOf(&d).Elem()
+	for i := 0; i < v.NumField(); i++ {
+		if f := v.Field(i); f.CanSet() && f.Kind() == reflect.String {
+			f.SetString("")
+		}
+	}
+	return d != decoration.EmptyDecoration
+}
+
+// parseText checks a rendered text table under a decoration of the zoo.
+func parseText(out string, nd namedDeco, m *model.TextModel) *model.TextParseError {
+	perr := model.ParseTextTable(out, nd.glyphs, nd.boxless, m, length.StringCells)
+	if perr != nil && nd.hybrid {
+		if model.ParseTextTable(out, nd.glyphs, false, m, length.StringCells) == nil {
+			return nil
+		}
+	}
+	return perr
 }
 
 func mkDeco(name string, d decoration.Decoration) (namedDeco, bool) {
 	nd := namedDeco{name: name, d: d, glyphs: decoGlyphs(d)}
-	nd.boxless = len(nd.glyphs) == 0 && d != decoration.EmptyDecoration
+	nd.boxless = boxlessLineage(d)
+	nd.hybrid = nd.boxless && len(nd.glyphs) > 0
 	for _, g := range nd.glyphs {
 		if length.StringCells(g) != 1 {
 			return nd, false
@@ -271,7 +300,10 @@ func c03Check(c *Ctx, spec *gen.TableSpec, decos []namedDeco, st *stage, sample 
 			c.Rec.Count("outputs_parsed_boxless", 1)
 		}
 		c.Rec.Count("lines_parsed", int64(strings.Count(out, "\n")))
-		if perr := model.ParseTextTable(out, nd.glyphs, nd.boxless, m, length.StringCells); perr != nil {
+		if nd.hybrid {
+			c.Rec.Count("outputs_parsed_under_a_decoration_derived_from_the_boxless_one_with_pieces_switched_on", 1)
+		}
+		if perr := parseText(out, nd, m); perr != nil {
 			c.Rec.Violate("text:"+perr.Class, fmt.Sprintf("under decoration %s (column widths %v): %s; output:\n%s", nd.name, widths, perr.Msg, out), cs)
 			return
 		}
